@@ -6,6 +6,7 @@ import (
 	"go/token"
 	"go/types"
 	"math"
+	"strings"
 	"unicode/utf8"
 
 	"golang.org/x/tools/go/ssa"
@@ -729,15 +730,40 @@ func (p *Path) rangeIter(x Value, t types.Type) iter {
 			return &mapIter{}
 		}
 		entries := x.liveEntries()
-		if p.e.cfg.PermuteMaps && len(entries) > 1 && len(entries) <= 3 {
-			// choose a permutation
-			n := len(entries)
-			perm := make([]*mapEntry, 0, n)
-			rest := append([]*mapEntry{}, entries...)
-			for len(rest) > 0 {
-				k := p.chooseN(len(rest))
-				perm = append(perm, rest[k])
-				rest = append(rest[:k], rest[k+1:]...)
+		if p.e.cfg.PermuteMaps && len(entries) > 1 && len(entries) <= 3 && strings.HasSuffix(t.String(), "ArchetypeResourceHandle]bool") {
+			// Go randomises map iteration: the order over the dirty-handle set is a nondeterministic choice.
+			// One permutation is chosen per (map, key set) and reused while the key set is unchanged.
+			ks := ""
+			for _, en := range entries {
+				s, _ := keyString(en.k)
+				ks += s
+			}
+			type permKey struct {
+				m  *MapObj
+				ks string
+			}
+			pk := permKey{x, ks}
+			order, ok := p.side[pk].([]int)
+			if !ok {
+				var idx []int
+				for i, en := range entries {
+					// bookkeeping variables (.pc, .stack) are plain locals: their position is irrelevant, keep them first
+					if ksn, _ := en.k.(string); ksn == ".pc" || ksn == ".stack" {
+						order = append(order, i)
+					} else {
+						idx = append(idx, i)
+					}
+				}
+				for len(idx) > 0 {
+					k := p.chooseNCat(len(idx), "permute")
+					order = append(order, idx[k])
+					idx = append(idx[:k], idx[k+1:]...)
+				}
+				p.side[pk] = order
+			}
+			perm := make([]*mapEntry, 0, len(entries))
+			for _, i := range order {
+				perm = append(perm, entries[i])
 			}
 			entries = perm
 		}
